@@ -387,6 +387,7 @@ def units(ctx):
 
 
 SPEC = Spec(
+    lean=['Folds.lean'],
     prop=PROP, level="proof",
     functions=[(BA, "BreakdownAnalysis._analyze_idle_time_for_stream"), (BA, "BreakdownAnalysis.get_idle_time_breakdown")],
     units=units, bounded=[Bounded("breakdown_vs_rule", bounded)],
